@@ -390,7 +390,7 @@ def date_system_rule(ctx, prog, rid):
                     continue
                 if evn[0] != "cond":
                     raise Und("statement kind %s" % evn[0])
-                atoms_ = P_.atoms(evn[1], evn[2])
+                atoms_ = [a_ for a_ in P_.atoms(evn[1], evn[2]) if a_[0] != "or"]  # disjunctions are resolved below
                 if not atoms_ and isinstance(evn[1], ast.BoolOp) and isinstance(evn[1].op, ast.And) and evn[2] is False:
                     # `A and B` is false: when every conjunct but one is already known true on this path, that one is false
                     unknown_ = []
